@@ -96,6 +96,7 @@ func Reference(q *cypher.RegularQuery, g gmodel.Graph, params map[string]any, op
 		results = append(results, r)
 		obs.OrderTies = obs.OrderTies || runObs.OrderTies
 		obs.ArbitraryWindow = obs.ArbitraryWindow || runObs.ArbitraryWindow
+		obs.WindowFeedsLaterClause = obs.WindowFeedsLaterClause || runObs.WindowFeedsLaterClause
 		obs.CollectOrderOpen = obs.CollectOrderOpen || runObs.CollectOrderOpen
 	}
 	base := results[0]
@@ -118,7 +119,9 @@ func Reference(q *cypher.RegularQuery, g gmodel.Graph, params map[string]any, op
 	// cancel, two rows hash into the same order).
 	if obs.ArbitraryWindow {
 		// a SKIP / LIMIT chose among rows whose order openCypher leaves open
-		if count {
+		// ... and when a later clause filters, matches, groups or cuts the survivors, HOW MANY rows come out depends
+		// on which ones passed, whatever the few tie-break orders tried here happened to produce
+		if count && !obs.WindowFeedsLaterClause {
 			return base, CountOnly, nil
 		}
 		return base, Undetermined, nil
